@@ -101,11 +101,25 @@ def _run(shard, nshards):
                             if not same:
                                 ok = False
                                 failures.append(dict(nodes=nodes, links=links, valves=[valves[0]] + valves[::-1], duplicated_row_or_row_order_changes_the_segments=True))
+                        # the layer is a table with NAMED columns: their order and further columns (wntr.gis.snap adds some) do not matter
+                        if ok and valves and idx % 3 == 1:
+                            vl3 = pd.DataFrame({"snap_distance": [0.5] * len(valves), "node": [v[1] for v in valves], "link": [v[0] for v in valves]})
+                            try:
+                                ns3, ls3, sizes3 = wntr.metrics.valve_segments(G, vl3)
+                                lab3 = {("N", n): int(ns3[n]) for n in nodes}
+                                lab3.update({("L", l): int(ls3[l]) for l, a, b in links})
+                                same = all(v >= 1 for v in lab3.values()) and all((lab3[x] == lab3[y]) == (ref[x] == ref[y]) for x, y in itertools.combinations(elems, 2)) and \
+                                    set(sizes3.index) == set(lab3.values())
+                            except Exception as e:
+                                same = False
+                            if not same:
+                                ok = False
+                                failures.append(dict(nodes=nodes, links=links, valves=valves, columns=list(vl3.columns), column_order_or_an_extra_column_changes_the_segments=True))
                         # valve_segment_attributes
                         if ok and valves:
                             demand = pd.Series({n: float(i + 1) for i, n in enumerate(nodes)})
                             length = pd.Series({l: (0.0 if i % 2 == 1 else 10.0 * (i + 1)) for i, (l, a, b) in enumerate(links)})     # pumps and valves have no length
-                            attr = wntr.metrics.valve_segment_attributes(vl, ns, ls, demand=demand, length=length)
+                            want_all = []
                             for vi, (l, n) in enumerate(valves):
                                 s_l, s_n = lab[("L", l)], lab[("N", n)]
                                 if s_l == s_n:
@@ -122,10 +136,27 @@ def _run(shard, nshards):
                                     ll = sum(length[k[1]] for k, v in lab.items() if v == s_l and k[0] == "L")
                                     want = (len(bound) - 1, 0.0 if dn == 0 and dl == 0 else (dn + dl) / max(dn, dl) - 1,
                                             0.0 if ln_ == 0 and ll == 0 else (ln_ + ll) / max(ln_, ll) - 1)
-                                got = (int(attr.loc[vi, "num_surround"]), float(attr.loc[vi, "demand_increase"]), float(attr.loc[vi, "length_increase"]))
-                                if got[0] != want[0] or not (abs(got[1] - want[1]) <= 1e-12) or not (abs(got[2] - want[2]) <= 1e-12):      # (NaN must not pass)
+                                want_all.append(want)
+                            # the attributes are RELATIVE gains keyed by the valve number (the layer's index label): the same for demands / lengths in
+                            # other units (a factor 1e-9, 1e6) and for the layer's rows listed in another order with their numbers attached
+                            variants = [("as given", vl, 1.0, 1.0)]
+                            if idx % 2 == 0:
+                                variants.append(("rows in reverse order, numbers attached; demands x 1e-9, lengths x 1e6", vl.iloc[::-1], 1e-9, 1e6))
+                            for vname, vlv, fd, fl in variants:
+                                try:
+                                    attr = wntr.metrics.valve_segment_attributes(vlv, ns, ls, demand=demand * fd, length=length * fl)
+                                except Exception as e:
                                     ok = False
-                                    failures.append(dict(nodes=nodes, links=links, valves=valves, valve=vi, attributes=got, expected=want))
+                                    failures.append(dict(nodes=nodes, links=links, valves=valves, variant=vname, raised=repr(e)[:200]))
+                                    break
+                                for vi, (l, n) in enumerate(valves):
+                                    want = want_all[vi]
+                                    got = (int(attr.loc[vi, "num_surround"]), float(attr.loc[vi, "demand_increase"]), float(attr.loc[vi, "length_increase"]))
+                                    if got[0] != want[0] or not (abs(got[1] - want[1]) <= 1e-9) or not (abs(got[2] - want[2]) <= 1e-9):      # (NaN must not pass)
+                                        ok = False
+                                        failures.append(dict(nodes=nodes, links=links, valves=valves, valve=vi, variant=vname, attributes=got, expected=want))
+                                        break
+                                if not ok:
                                     break
                         elif not ok:
                             failures.append(dict(nodes=nodes, links=links, valves=valves, node_segments=ns.to_dict(), link_segments=ls.to_dict()))
@@ -136,7 +167,7 @@ def _run(shard, nshards):
         return dict(evaluations=evals, distinct_nontrivial=len(distinct), failures=failures[:10], samples=samples, exhaustive=True,
                     scope="shard %d/%d of ALL multigraphs with 2..%d nodes and 1..%d links (parallel links included) x ALL valve layers (any subset of the "
                           "2 x links link-end incidences): labels positive, same label iff joined without passing a valve (union-find reference), segment "
-                          "sizes count members, a duplicated row / reversed row order gives the same segments (every third case), valve_segment_attributes (other bounding valves, relative demand / length gained, 0 when both sides equal)"
+                          "sizes count members, a duplicated row / reversed row order (every third case) and another column order with an extra column (every third case) give the same segments, valve_segment_attributes (other bounding valves, relative demand / length gained, 0 when both sides equal; every second case also with the rows reversed under their own numbers and demands / lengths in other units)"
                           % (shard, nshards, max_nodes, max_links))
     return run
 
